@@ -60,6 +60,8 @@ type input struct {
 	Backends   []string `json:"backends"`
 	Only       *only    `json:"only,omitempty"`
 	Seed       int64    `json:"seed,omitempty"`
+	// DeadlineSec: write out what was recorded and end the process after that many seconds
+	DeadlineSec int `json:"deadlineSec,omitempty"`
 }
 
 func (in input) seedFor(bi int) int64 {
@@ -150,6 +152,7 @@ func keyFor(w *world, v violation) string {
 }
 
 type runner struct {
+	cur  *only
 	in   input
 	out  *vh.Result
 	b    []step
@@ -159,6 +162,7 @@ type runner struct {
 }
 
 func (r *runner) newWorld() *world {
+	setCurrent(r.in.narrowed(r.b, r.ns, r.be, r.cur, r.seed))
 	w, err := newWorld(r.in.Consts, r.seed, r.ns, r.be)
 	if errors.Is(err, errOnRealCode) {
 		r.diverge("prune-fails-on-valid-chain", err.Error(), -1, nil, nil, nil)
@@ -357,6 +361,7 @@ func TestPruneConform(t *testing.T) {
 	out := vh.NewResult()
 	defer out.Write()
 	defer machinery(out)
+	startDeadline(out, in.DeadlineSec)
 	n, steps := 0, 0
 	for bi, b := range in.Behaviours {
 		for _, ns := range in.NewState {
@@ -396,6 +401,7 @@ func TestPruneEnum(t *testing.T) {
 	out := vh.NewResult()
 	defer out.Write()
 	defer machinery(out)
+	startDeadline(out, in.DeadlineSec)
 	runs, trials := 0, 0
 	for bi, b := range in.Behaviours {
 		for _, ns := range in.NewState {
@@ -458,6 +464,9 @@ func TestPruneEnum(t *testing.T) {
 // same event again (the resumed prune), and require the uninterrupted run's database.
 func (r *runner) trial(at, last, k int, mode string, ref []faultkv.KV) {
 	o := &only{at, k, mode}
+	r.cur = o
+	setCurrent(r.in.narrowed(r.b, r.ns, r.be, o, r.seed))
+	defer func() { r.cur = nil }()
 	w := r.newWorld()
 	if w == nil {
 		return
@@ -510,6 +519,7 @@ func TestPruneProbe(t *testing.T) {
 	out := vh.NewResult()
 	defer out.Write()
 	defer machinery(out)
+	setCurrent(vh.J{"probe": "all"})
 	w, err := newWorld(consts{MaxH: 8, InitH: 6, MaxL1: 8, Retained: 0, PruneBatch: 1, L2PerPrune: 1}, vh.Seed(), false, "memory")
 	if err != nil {
 		panic(err)
@@ -570,11 +580,3 @@ func TestPruneProbe(t *testing.T) {
 
 var _ = memory.New
 var _ = context.Background
-
-// machinery records a panic of the harness itself (never a verdict): the driver turns it into exit 2.
-func machinery(out *vh.Result) {
-	if r := recover(); r != nil {
-		out.Stats["machinery_error"] = fmt.Sprint(r)
-		panic(r)
-	}
-}
